@@ -177,7 +177,7 @@ Section Graph.
 
   Lemma cand_name p c v : crit_get (criteria_of st) p = Some c -> In v (c_cands c) -> vk_name v = p.
   Proof.
-    intros G Hin. destruct (inv_crit _ _ _ _ _ _ _ _ _ _ HI _ _ G) as [A1 _ A3 _ A5].
+    intros G Hin. destruct (inv_crit _ _ _ _ _ _ _ _ _ _ HI _ _ G) as [A1 _ A3 _ A5 _].
     destruct (c_info c) as [|[d par] rest] eqn:Ei; [congruence|].
     assert (Hd : In d (reqs_of c)) by (unfold reqs_of; rewrite Ei; simpl; auto).
     destruct (A1 _ Hin _ Hd) as (l & Gl & Hl).
@@ -189,7 +189,7 @@ Section Graph.
 
   Lemma cand_root c v : crit_get (criteria_of st) (vk_name root) = Some c -> In v (c_cands c) -> v = root.
   Proof.
-    intros G Hin. destruct (inv_crit _ _ _ _ _ _ _ _ _ _ HI _ _ G) as [A1 _ A3 _ A5].
+    intros G Hin. destruct (inv_crit _ _ _ _ _ _ _ _ _ _ HI _ _ G) as [A1 _ A3 _ A5 _].
     assert (Hn : forall d, In d (reqs_of c) -> vk_name (rq_key d) = vk_name root).
     { intros d Hd. unfold reqs_of in Hd. apply in_map_iff in Hd as ([d' par] & E & Hd). simpl in E. subst d'.
       apply (A3 _ _ Hd). }
@@ -604,7 +604,7 @@ Section Graph.
       - unfold pinned. rewrite (pin_name _ _ Gw). auto.
       - rewrite (pin_name _ _ Gw). auto. }
     subst w0.
-    destruct (inv_crit _ _ _ _ _ _ _ _ _ _ HI _ _ Gc) as [A1 _ _ _ _].
+    destruct (inv_crit _ _ _ _ _ _ _ _ _ _ HI _ _ Gc) as [A1 _ _ _ _ _].
     assert (Hr : In d (reqs_of c')) by (unfold reqs_of; apply in_map_iff; exists (d, v); auto).
     destruct (A1 _ Hc _ Hr) as (l & Gl & Hl). exists l. split; auto.
     unfold gm in Gl. destruct (ANYPRE (reqs_of c')); auto.
